@@ -104,7 +104,7 @@ def run_engine_check(pid, tier, seed, wd):
     thorough = tier == "thorough"
     if thorough:
         # wider configuration slice: every limit 1..3 (and none), ttl 1..3, a second memory bound, all weights
-        spec["limits"] = set(spec["limits"]) | {1, 2, 3}
+        spec["limits"] = set(spec["limits"]) | {1, 2, 3, 4}
         spec["ttls"] = set(spec["ttls"]) | ({1, 3} if spec["ttls"] != {0} else set())
         spec["maxmems"] = set(spec["maxmems"]) | {5}
         if "tlru" in spec["pols"]:
@@ -121,10 +121,10 @@ def run_engine_check(pid, tier, seed, wd):
               "Pols": set(spec["pols"]), "Limits": set(ENGINE[pid]["limits"]),
               "Ttls": set(ENGINE[pid]["ttls"]), "Maxmems": set(ENGINE[pid]["maxmems"]),
               "Weights": set(ENGINE[pid]["weights"]), "SizesMem": {1, 2, 4},
-              "MaxVer": 4 if thorough else 3, "MaxHits": 2}
+              "MaxVer": 5 if thorough else 3, "MaxHits": 2}
     if thorough:
         # the model checker gets the wider slice too, minus the largest constants (state explosion)
-        consts["Limits"] = set(spec["limits"]) - {3}
+        consts["Limits"] = set(spec["limits"]) - {3, 4}
         consts["Ttls"] = set(spec["ttls"]) - {3}
         consts["Weights"] = set(spec["weights"]) if "tlru" in spec["pols"] else {"none"}
     write_cfg(mc_cfg, "Spec", consts, invariants=["StateOK", "GhostAgrees", "GhostFromState"],
@@ -145,8 +145,8 @@ def run_engine_check(pid, tier, seed, wd):
     cfgs = cfgs_a + cfgs_b
     keys = ["k1", "k2", "k3"]
     if thorough:
-        ba = {"keys": keys, "sizes": [1, 2, 4], "max_ver": 4, "max_hits": 2, "seeds": 6}
-        bb = {"keys": keys, "sizes": [1, 2, 4], "max_ver": 3, "max_hits": 2, "seeds": 6}
+        ba = {"keys": keys, "sizes": [1, 2, 4], "max_ver": 5, "max_hits": 2, "seeds": 6}
+        bb = {"keys": keys, "sizes": [1, 2, 4], "max_ver": 4, "max_hits": 2, "seeds": 6}
     else:
         ba = {"keys": keys, "sizes": [1, 2, 4], "max_ver": 3, "max_hits": 1, "seeds": 4}
         bb = {"keys": keys, "sizes": [2, 4], "max_ver": 3, "max_hits": 1, "seeds": 4}
@@ -256,9 +256,9 @@ def run_engine_check(pid, tier, seed, wd):
 
     # ------------------------------------------------------------------ 3. random traces
     rnd = os.path.join(wd, "random.ndjson")
-    ntr, ln_ = (1500, 120) if thorough else (220, 50)
+    ntr, ln_ = (8000, 150) if thorough else (220, 50)
     rs = harness_json(["engine-rand", "--seed", str(seed), "--traces", str(ntr), "--len", str(ln_),
-                       "--keys", "9", "--policies", ",".join(sorted(spec["pols"])), "--out", rnd],
+                       "--keys", "12" if thorough else "9", "--policies", ",".join(sorted(spec["pols"])), "--out", rnd],
                       timeout=3000)
     tv = validate_file("Trace", tcfg, rnd, pid + "_rand", nshards=14, timeout=3000)
     if tv["errors"]:
